@@ -35,6 +35,12 @@ def settrace(trace):
     osettrace(trace)
 
 
+def _threading_gettrace():
+    if hasattr(threading, 'gettrace'):  # Python 3.10+
+        return threading.gettrace()
+    return getattr(threading, '_trace_hook', None)
+
+
 class TestTrace(trace.Trace):
     """Simple tracer.
 
@@ -69,6 +75,9 @@ class TestTrace(trace.Trace):
     def start(self):
         assert not self.started, "can't start if already started"
         if not self.donothing:
+            # Remember the trace functions that are installed already (a
+            # debugger, an outer coverage tool) so stop() can put them back.
+            self._previous = (sys.gettrace(), _threading_gettrace())
             sys.settrace = settrace
             sys.settrace(self.globaltrace)
             threading.settrace(self.globaltrace)
@@ -78,8 +87,9 @@ class TestTrace(trace.Trace):
         assert self.started, "can't stop if not started"
         if not self.donothing:
             sys.settrace = osettrace
-            sys.settrace(None)
-            threading.settrace(None)
+            previous, threading_previous = self._previous
+            sys.settrace(previous)
+            threading.settrace(threading_previous)
         self.started = False
 
 
